@@ -517,7 +517,8 @@ def main():
     ms = [128] if tier == "quick" else [128, 256, 512]
     for m in ms:
         obs.append(common.Ob(f"_merge == element-wise max, m={m} (+ algebra)", ob_merge_spec, (m, tmo), hard_s=tmo / 1000 * 6 + 60, bounds={"m": m}))
-        obs.append(common.Ob(f"merge/add commute on the kernels, m={m}", ob_merge_add_commute, (m, m.bit_length() - 1, tmo), hard_s=tmo / 1000 + 60, bounds={"m": m}))
+        if m <= 256:
+            obs.append(common.Ob(f"merge/add commute on the kernels, m={m}", ob_merge_add_commute, (m, m.bit_length() - 1, tmo), hard_s=tmo / 1000 + 60, bounds={"m": m}))
     from engine import wrun
     wobs, wmeta = wrun.obligations("c02", tier)
     obs += wobs
